@@ -40,6 +40,7 @@ def make_store(reverse_order=False, can=True):
     st.tag_insert_query = sa.insert(md.tables["tags"]).prefix_with("OR IGNORE")
     st.event_insert_query = sa.insert(st.EventTable).prefix_with("OR IGNORE")
     st.broadcasts = []
+    st.pushed = []
     st.announced = []
 
     async def validate(event, config):
@@ -47,6 +48,7 @@ def make_store(reverse_order=False, can=True):
 
     async def notify_all(event):
         st.broadcasts.append((event.id, st.db.open_txns))
+        st.pushed.append(event)
 
     async def notify_other(event):
         st.announced.append((event.id, st.db.open_txns))
